@@ -74,12 +74,14 @@ UNMODELLED = [
     "ZmodN::{mul, add, sub, redc, redc_large} are exact modular arithmetic on residues on the domain proved in C07 (redc_large_spec, "
     "add_spec, redc_spec); MInt == is equality of residues (MInts are reduced: C07); mg_mul/mg_redc are the word-exact C07 models; "
     "arith::inv_mod64 (C08) is the mathematical inverse",
-    "the arith_poly models are generic over coefficient operations and are RUN by the driver with natOps n (plain residues); the "
-    "Montgomery operations the code runs (montOps / montFin, value level as proved in C07) are instances for the theorems but are not "
-    "run by the driver; the models call the exact step fftLongmul/fftMidmul by name: that it is the code's _fft_longmul/_fft_midmul "
-    "over the word-level convolve_modn_ntt is the extensional equality fft_longmul_word_eq / fft_midmul_word_eq (every input), the "
-    "models are not re-expressed with the word-level step inside; convolve_modn_ntt is K/O-compared through the word-level model up to "
-    "size 1024 (beyond: specification model); the debug_assert sanity check of the roots at the end of MultiZmodP::new is not modelled",
+    "the arith_poly models are generic over coefficient operations; the driver runs them with natOps n (plain residues, pf_* ops) AND "
+    "with the Montgomery operations montOps on the raw integers held by the MInts (pfm_* twins of the arith_poly ops, K only: the "
+    "harness makes the same call of the real code without from_int/to_int); montFin (the typed variant used by fft_*_word_eq) is not "
+    "run, it is montOps restricted to reduced residues (fftLongmul_fin/fftMidmul_fin); the models call the exact step "
+    "fftLongmul/fftMidmul by name: that it is the code's _fft_longmul/_fft_midmul over the word-level convolve_modn_ntt is the "
+    "extensional equality fft_longmul_word_eq / fft_midmul_word_eq, the models are not re-expressed with the word-level step inside; "
+    "pf_convolve_ntt: every K-compared case (explicit operands, sizes 2..4096) is answered by the word-level model; sizes >= 8192 "
+    "(generated operands) are judged by the Python oracle only (no K stream, as for pf_convolve at those sizes)",
     "bnum U1024/U2048 operators are modelled as Nat arithmetic; memory safety of get_unchecked is not modelled",
 ]
 
@@ -803,9 +805,34 @@ def mzp_cases(rng, tier, extended):
     return out
 
 
+# ops with a `pfm_` twin (same call of the real code, raw Montgomery-form residues in and out; the driver answers
+# with the SAME models run with montOps): positions of the residue-list arguments
+PFM_TWINS = {"pf_mul_karatsuba": (1, 2), "pf_mul_fft": (2, 3), "pf_longmul": (2, 3), "pf_middlemul": (2, 3),
+             "pf_div_mod_xn": (2, 3), "pf_inv_mod_xn": (2,), "pf_from_roots": (2,), "pf_roots_eval": (1, 2),
+             "pf_multi_eval": (2, 3)}
+
+
+def pfm_twins(rng, cases_):
+    """K-only twins of the arith_poly cases with explicit operands: residues converted to Montgomery form"""
+    for c in cases_:
+        yield c
+        f = c.line.split(" ")
+        pos = PFM_TWINS.get(f[0])
+        if pos is None or not c.k or "g:" in c.line or rng.randrange(3):
+            continue
+        n = int(f[1])
+        if n % 2 == 0 or n < 3:
+            continue
+        R = 1 << (64 * ((n.bit_length() + 63) // 64))
+        for i in pos:
+            if f[i + 1] != "-":
+                f[i + 1] = ",".join(str(int(x) * R % n) for x in f[i + 1].split(","))
+        yield Case("pfm_" + f[0][3:] + " " + " ".join(f[1:]), k=True, o=False, profiles=c.profiles, timeout=c.timeout)
+
+
 def cases(tier, rng, extended=False):
     yield from convolve_cases(rng, tier, extended)
-    yield from poly_cases(rng, tier, extended)
+    yield from pfm_twins(rng, poly_cases(rng, tier, extended))
     yield from fint_cases(rng, tier, extended)
     yield from mzp_cases(rng, tier, extended)
 
@@ -1220,7 +1247,7 @@ LEVEL_NOTE = ("Trusted: Lean kernel (+propext, Classical.choice, Quot.sound); th
               "_fft_longmul / _fft_midmul over the word-level convolve_modn_ntt (convolve_modn_ntt_spec), so nothing about the NTT is assumed "
               "any more; one-statement forms are given for mul_fft, _longmul (NTT branch) and Poly::middlemul (power-of-two branch); for the "
               "recursive routines (series, trees, multi_eval, roots_eval) the composition is by extensional equality of the step, the models "
-              "are not re-expressed with the word-level step inside. The driver runs the models with natOps (plain residues), not montOps. "
+              "are not re-expressed with the word-level step inside. The driver runs the models with natOps (pf_*) and with montOps on raw Montgomery residues (pfm_* twins, K only). "
               "NO THEOREM: roots_eval with |b| = 1. "
               "crt_spec covers _crt (mg_mul64, quotient estimate, column loop, carry assert) on the tables of the model of MultiZmodP::new; "
               "from_mint, redc, pprods_modn[q] = -qP mod n, and that V < P/2 for the values _crt is called on, are checked by K/O (mzp_new, "
